@@ -509,18 +509,18 @@ fn gen_glob_side(rng: &mut Rng, dst: bool) -> Vec<u8> {
         n.push(b'*');
         n.extend(rng.word(b"ab/.D", 0, 2));
     } else {
-        n.extend_from_slice(rng.pick(&["", "", "", "a", "b", "ab", "a/", "a.", "r"]).as_bytes());
+        n.extend_from_slice(rng.pick(&["", "", "", "", "", "", "a", "a", "b", "ab", "a/", "a.", "r"]).as_bytes());
         n.push(b'*');
-        n.extend_from_slice(rng.pick(&["", "", "", "a", "b", "ba", "/a", "/HEAD", "D", ".a", "a/b"]).as_bytes());
+        n.extend_from_slice(rng.pick(&["", "", "", "", "", "", "", "a", "a", "b", "ba", "/a", "/HEAD", "D", ".a", "a/b"]).as_bytes());
     }
     n
 }
 
 fn gen_spec(rng: &mut Rng, names: &[Vec<u8>]) -> Vec<u8> {
     let mut s: Vec<u8> = Vec::new();
-    let kind = rng.below(40);
+    let kind = rng.below(80);
     let existing = |rng: &mut Rng| -> Vec<u8> {
-        if names.is_empty() || rng.chance(1, 12) {
+        if names.is_empty() || rng.chance(1, 30) {
             gen_refname(rng)
         } else {
             rng.pick(names).clone()
@@ -558,7 +558,7 @@ fn gen_spec(rng: &mut Rng, names: &[Vec<u8>]) -> Vec<u8> {
         }
     };
     match kind {
-        0..=11 => {
+        0..=25 => {
             // glob
             if rng.chance(1, 4) {
                 s.push(b'+');
@@ -569,7 +569,7 @@ fn gen_spec(rng: &mut Rng, names: &[Vec<u8>]) -> Vec<u8> {
                 s.extend(gen_glob_side(rng, true));
             }
         }
-        12..=17 => {
+        26..=39 => {
             // full name
             if rng.chance(1, 4) {
                 s.push(b'+');
@@ -580,7 +580,7 @@ fn gen_spec(rng: &mut Rng, names: &[Vec<u8>]) -> Vec<u8> {
                 s.extend(gen_dst(rng));
             }
         }
-        18..=25 => {
+        40..=57 => {
             // partial name (also: a full name abbreviated to something that still starts with refs/)
             if rng.chance(1, 4) {
                 s.push(b'+');
@@ -592,12 +592,12 @@ fn gen_spec(rng: &mut Rng, names: &[Vec<u8>]) -> Vec<u8> {
                 s.extend(gen_dst(rng));
             }
         }
-        26..=27 => {
+        58..=61 => {
             // object id
             let id = oid_of_index(rng.below(4) as usize).to_hex().to_string();
             let id = if rng.chance(1, 4) { id.to_ascii_uppercase() } else { id };
             s.extend_from_slice(id.as_bytes());
-            if rng.chance(1, 10) {
+            if rng.chance(1, 16) {
                 s.pop();
             }
             if rng.chance(2, 3) {
@@ -605,10 +605,10 @@ fn gen_spec(rng: &mut Rng, names: &[Vec<u8>]) -> Vec<u8> {
                 s.extend(gen_dst(rng));
             }
         }
-        28..=36 => {
+        62..=76 => {
             // negative
             s.push(b'^');
-            match rng.below(24) {
+            match rng.below(48) {
                 0 | 1 => s.extend_from_slice(b"HEAD"),
                 2 => s.extend_from_slice(b"@"),
                 3 => s.extend(gen_glob_side(rng, false)),
@@ -621,7 +621,7 @@ fn gen_spec(rng: &mut Rng, names: &[Vec<u8>]) -> Vec<u8> {
                 _ => s.extend(existing(rng)),
             }
         }
-        37 => {
+        77 => {
             // special short forms
             s.extend_from_slice(
                 rng.pick(&[
@@ -631,7 +631,7 @@ fn gen_spec(rng: &mut Rng, names: &[Vec<u8>]) -> Vec<u8> {
                 .as_bytes(),
             );
         }
-        38 => {
+        78 => {
             // the pattern on one side only / two stars
             s.extend(gen_glob_side(rng, false));
             s.push(b':');
@@ -704,7 +704,7 @@ fn gen(rng: &mut Rng, n: usize) -> Vec<Case> {
         }
     }
     while out.len() < n {
-        let nnames = if rng.chance(1, 15) { 0 } else { rng.range(1, 7) as usize };
+        let nnames = if rng.chance(1, 40) { 0 } else { rng.range(2, 8) as usize };
         let mut names: Vec<Vec<u8>> = Vec::new();
         for _ in 0..nnames {
             let n = gen_refname(rng);
@@ -718,7 +718,11 @@ fn gen(rng: &mut Rng, n: usize) -> Vec<Case> {
             17..=30 => 2,
             _ => rng.range(3, 5) as usize,
         };
-        let specs: Vec<Vec<u8>> = (0..nspecs).map(|_| gen_spec(rng, &names)).collect();
+        let mut specs: Vec<Vec<u8>> = (0..nspecs).map(|_| gen_spec(rng, &names)).collect();
+        if !specs.is_empty() && specs.iter().all(|s| s.first() == Some(&b'^')) && rng.chance(9, 10) {
+            // negative specs alone map nothing: put a pattern in front
+            specs.insert(0, rng.pick(&["refs/heads/*:refs/r/*", "+refs/*:refs/r/*", "refs/tags/*:refs/tags/*"]).as_bytes().to_vec());
+        }
         let s: Vec<&[u8]> = specs.iter().map(|v| v.as_slice()).collect();
         let nn: Vec<&[u8]> = names.iter().map(|v| v.as_slice()).collect();
         out.push(mk(&s, &nn));
@@ -727,6 +731,141 @@ fn gen(rng: &mut Rng, n: usize) -> Vec<Case> {
     out
 }
 
+// ------------------------------------------------------------------------------------------------
+// real git as oracle for the Coq specification (Spec.v): `git fetch` from a scratch bare repository that has
+// exactly the given references, each pointing to its own commit; what was fetched is read back from the
+// created references and FETCH_HEAD.  Prints the line `run ("spec" :: case)` prints, or `-` when the case
+// cannot be staged with real git (HEAD among the names, duplicate or D/F-conflicting names, object-id
+// sources naming objects that do not exist, empty spec list / empty spec text, specs git's stricter parser rejects).
+
+fn git_cmd(dir: &std::path::Path) -> std::process::Command {
+    let mut c = std::process::Command::new("/usr/bin/git");
+    c.current_dir(dir)
+        .env_clear()
+        .env("PATH", "/usr/bin:/bin")
+        .env("HOME", dir)
+        .env("GIT_CONFIG_NOSYSTEM", "1")
+        .env("GIT_CONFIG_GLOBAL", "/dev/null")
+        .env("GIT_AUTHOR_NAME", "a")
+        .env("GIT_AUTHOR_EMAIL", "a@b")
+        .env("GIT_AUTHOR_DATE", "1700000000 +0000")
+        .env("GIT_COMMITTER_NAME", "a")
+        .env("GIT_COMMITTER_EMAIL", "a@b")
+        .env("GIT_COMMITTER_DATE", "1700000000 +0000")
+        .env("LC_ALL", "C");
+    c
+}
+
+fn git_oracle_in(dir: &std::path::Path, specs: &[&[u8]], names: &[&[u8]]) -> Option<String> {
+    use std::io::Write;
+    use std::os::unix::ffi::OsStrExt;
+    use std::process::Stdio;
+    let remote = dir.join("remote");
+    let local = dir.join("local");
+    std::fs::create_dir_all(&remote).ok()?;
+    std::fs::create_dir_all(&local).ok()?;
+    for d in [&remote, &local] {
+        if !git_cmd(d).args(["init", "-q", "--bare", "."]).status().ok()?.success() {
+            return None;
+        }
+    }
+    git_cmd(&remote).args(["symbolic-ref", "HEAD", "refs/heads/__unborn__"]).status().ok()?;
+    let tree = {
+        let o = git_cmd(&remote).args(["hash-object", "-t", "tree", "-w", "--stdin"]).stdin(Stdio::null()).output().ok()?;
+        String::from_utf8(o.stdout).ok()?.trim().to_string()
+    };
+    let mut by_oid: std::collections::BTreeMap<String, Vec<u8>> = Default::default();
+    let mut script: Vec<u8> = Vec::new();
+    for (i, n) in names.iter().enumerate() {
+        let o = git_cmd(&remote).args(["commit-tree", &tree, "-m", &format!("c{i}")]).output().ok()?;
+        let oid = String::from_utf8(o.stdout).ok()?.trim().to_string();
+        if oid.len() != 40 {
+            return None;
+        }
+        script.extend_from_slice(b"create ");
+        script.extend_from_slice(n);
+        script.extend_from_slice(format!(" {oid}\n").as_bytes());
+        by_oid.insert(oid, n.to_vec());
+    }
+    if !names.is_empty() {
+        let mut ch = git_cmd(&remote).args(["update-ref", "--stdin"]).stdin(Stdio::piped()).stderr(Stdio::null()).spawn().ok()?;
+        ch.stdin.take()?.write_all(&script).ok()?;
+        if !ch.wait().ok()?.success() {
+            return None; // D/F conflict between names, or a name git refuses
+        }
+    }
+    let mut fetch = git_cmd(&local);
+    fetch.args(["fetch", "--refmap=", "--no-tags", "-q", "../remote"]);
+    for s in specs {
+        fetch.arg(std::ffi::OsStr::from_bytes(s));
+    }
+    let out = fetch.output().ok()?;
+    let err = String::from_utf8_lossy(&out.stderr).to_string();
+    if err.contains("fatal: couldn't find remote ref") {
+        return Some("die missing".into());
+    }
+    if err.contains("fatal: Cannot fetch both") {
+        return Some("die conflict".into());
+    }
+    if err.contains("fatal:") || err.contains("unable to update") || err.contains("cannot lock") {
+        return None;
+    }
+    let mut pairs: BTreeSet<(Vec<u8>, Option<Vec<u8>>)> = BTreeSet::new();
+    let mut with_dst: std::collections::BTreeMap<String, usize> = Default::default();
+    let refs = git_cmd(&local).args(["for-each-ref", "--format=%(objectname) %(refname)"]).output().ok()?;
+    for line in refs.stdout.split(|b| *b == b'\n').filter(|l| !l.is_empty()) {
+        let oid = String::from_utf8_lossy(&line[..40]).to_string();
+        let dst = line[41..].to_vec();
+        let src = by_oid.get(&oid)?.clone();
+        *with_dst.entry(oid).or_default() += 1;
+        pairs.insert((src, Some(dst)));
+    }
+    let mut in_fetch_head: std::collections::BTreeMap<String, usize> = Default::default();
+    if let Ok(fh) = std::fs::read(local.join("FETCH_HEAD")) {
+        for line in fh.split(|b| *b == b'\n').filter(|l| l.len() >= 40) {
+            *in_fetch_head.entry(String::from_utf8_lossy(&line[..40]).to_string()).or_default() += 1;
+        }
+    }
+    for (oid, n) in in_fetch_head {
+        if n > with_dst.get(&oid).copied().unwrap_or(0) {
+            pairs.insert((by_oid.get(&oid)?.clone(), None));
+        }
+    }
+    let l: Vec<String> = pairs
+        .iter()
+        .map(|(s, d)| format!("{}>{}", hexs(s), d.as_ref().map_or("~".to_string(), |d| hexs(d))))
+        .collect();
+    Some(format!("maps {}", join(l, ",")))
+}
+
+fn git(c: &Case) -> String {
+    static COUNTER: std::sync::atomic::AtomicUsize = std::sync::atomic::AtomicUsize::new(0);
+    if f_str(c, 0) != b"match" {
+        return "-".into();
+    }
+    let (specs, names) = split_case(c);
+    if specs.is_empty() || specs.iter().any(|s| s.is_empty() || s[0] == b'-') || parse_all(&specs).is_err() {
+        return "-".into();
+    }
+    let mut sorted = names.clone();
+    sorted.sort();
+    sorted.dedup();
+    if sorted.len() != names.len() || names.iter().any(|n| *n == b"HEAD" || !g_check_refname_format(n)) {
+        return "-".into();
+    }
+    if specs.iter().any(|s| g_parse(s).exact_sha1) {
+        return "-".into();
+    }
+    let dir = std::env::temp_dir().join(format!(
+        "gixv-c32-{}-{}",
+        std::process::id(),
+        COUNTER.fetch_add(1, std::sync::atomic::Ordering::SeqCst)
+    ));
+    let r = git_oracle_in(&dir, &specs, &names);
+    let _ = std::fs::remove_dir_all(&dir);
+    r.unwrap_or_else(|| "-".into())
+}
+
 fn main() {
-    main_with(Harness { gen, imp, prop, git: None, deadline: std::time::Duration::from_secs(10) });
+    main_with(Harness { gen, imp, prop, git: Some(git), deadline: std::time::Duration::from_secs(10) });
 }
